@@ -649,6 +649,7 @@ func (g *fnGen) doBuiltin(st *state, b *ssa.Builtin, cc *ssa.CallCommon, instr s
 		g.doAppend(st, cc, resV, ca)
 	case "copy":
 		dst := ca.args[0]
+		var copyInner, copyOldDst, copyArr string
 		if sl, ok := ca.argTs[0].Underlying().(*types.Slice); ok {
 			if _, isStruct := sl.Elem().Underlying().(*types.Struct); !isStruct {
 				name := g.elemArrayName(sl.Elem())
@@ -659,6 +660,7 @@ func (g *fnGen) doBuiltin(st *state, b *ssa.Builtin, cc *ssa.CallCommon, instr s
 				inner := g.freshConst("copied", "(Array Int "+g.R.sortOf(sl.Elem())+")")
 				g.assert(S("=", n, S("store", arr, S("s-base", dst), inner)))
 				st.heap[name] = n
+				copyInner, copyOldDst, copyArr = inner, S("select", arr, S("s-base", dst)), arr
 			} else {
 				g.abstracted["copy of struct slice"] = true
 			}
@@ -668,7 +670,21 @@ func (g *fnGen) doBuiltin(st *state, b *ssa.Builtin, cc *ssa.CallCommon, instr s
 		if isString(ca.argTs[1]) {
 			srcLen = S("strlen", ca.args[1])
 		}
-		g.assume(st, And(S(">=", c, "0"), S("<=", c, S("s-len", dst)), S("<=", c, srcLen)))
+		g.assume(st, And(S(">=", c, "0"), S("<=", c, S("s-len", dst)), S("<=", c, srcLen), Or(S("=", c, S("s-len", dst)), S("=", c, srcLen))))
+		if copyInner != "" {
+			// element-wise meaning of copy: the first c elements come from the (old) source, the rest of the backing array is kept
+			g.nfresh++
+			j := q(fmt.Sprintf("q!cp!%d", g.nfresh))
+			off := S("-", j, S("s-off", dst))
+			var from string
+			if isString(ca.argTs[1]) {
+				from = S("strbyte", ca.args[1], off)
+			} else {
+				from = S("select", S("select", copyArr, S("s-base", ca.args[1])), S("+", S("s-off", ca.args[1]), off))
+			}
+			inRange := And(S("<=", S("s-off", dst), j), S("<", j, S("+", S("s-off", dst), c)))
+			g.assert(fmt.Sprintf("(forall ((%s Int)) (! (= (select %s %s) (ite %s %s (select %s %s))) :pattern ((select %s %s))))", j, copyInner, j, inRange, from, copyOldDst, j, copyInner, j))
+		}
 		set(c)
 	case "delete":
 		mt := ca.argTs[0].Underlying().(*types.Map)
